@@ -119,6 +119,7 @@ pub ghost struct TaskAbs {
     pub start_time: int,
     pub end_time: int,
     pub revived: nat,                    // ghost: number of Error -> Running revivals by a catch (C02/C06)
+    pub seq: nat,                        // ghost: creation index (a task is created after its prev task: prev links are acyclic)
     pub node: Arc<Node>,
 }
 pub ghost struct Heap {
@@ -133,8 +134,12 @@ pub ghost struct Heap {
     pub proc_events: Seq<TaskState>,     // Scheduler::emit_proc_event calls: process state at the time
     pub msg_closed: Seq<(Seq<char>, Seq<char>)>,   // set_message_with(pid, tid, Completed) calls
     pub now: int,
+    pub next_seq: nat,                   // ghost: creation index of the next task
 }
 pub const ROOT_TID: &'static str = "$";
+// the prev task exists (opaque: revealing it inside a quantifier over tasks would loop along the prev chain)
+#[verifier::opaque]
+pub open spec fn prev_in(h: Heap, t: Tid) -> bool { h.tasks[t].prev is Some ==> h.tasks.dom().contains(h.tasks[t].prev->Some_0) }
 
 impl Heap {
     // heap invariant kept by every primitive (lemma_stub_consequences):
@@ -145,6 +150,9 @@ impl Heap {
         &&& self.has(self.cur)
         &&& (self.has(ROOT_TID@) ==> (if st_terminal(self.st(ROOT_TID@)) { self.proc_state == self.st(ROOT_TID@) } else { !st_terminal(self.proc_state) }))
         &&& forall|t: Tid| #[trigger] self.has(t) ==> (self.tasks[t].err is Some ==> self.st(t) is Error) && (self.tasks[t].node.s_kind() == NodeKind::Workflow ==> t == ROOT_TID@)
+        // a task is created after its prev task (process.rs create_task): prev links are acyclic
+        &&& forall|t: Tid| #[trigger] self.has(t) ==> self.tasks[t].seq < self.next_seq && prev_in(*self, t)
+        &&& forall|t: Tid, p: Tid| #[trigger] self.has(t) && #[trigger] self.has(p) && self.tasks[t].prev == Some(p) ==> self.tasks[p].seq < self.tasks[t].seq
     }
     pub open spec fn has(&self, t: Tid) -> bool { self.tasks.dom().contains(t) }
     pub open spec fn st(&self, t: Tid) -> TaskState { self.tasks[t].state }
@@ -158,7 +166,7 @@ pub open spec fn catch_revive(t: TaskAbs, s: TaskState) -> bool {
 }
 // what may happen to one task over any number of steps (transitive, reflexive)
 pub open spec fn task_fwd(a: TaskAbs, b: TaskAbs) -> bool {
-    &&& a.prev == b.prev && a.node == b.node
+    &&& a.prev == b.prev && a.node == b.node && a.seq == b.seq
     &&& ((b.revived == a.revived && legal(a.state, b.state))
         || (b.revived == a.revived + 1 && b.revived <= 1 && (a.state is Error || !st_terminal(a.state)) && st_rank(b.state) >= 2))
 }
@@ -285,6 +293,7 @@ impl Task {
     pub fn children(&self, Tracked(h): Tracked<&Heap>) -> (r: Vec<Arc<Task>>)
         requires h.has(self.id@)
         ensures tasks_ok(*h, r@), tids(r@).no_duplicates(), tids(r@).to_set() == children_of(*h, self.id@),
+                forall|i: int| 0 <= i < r@.len() ==> h.tasks[(#[trigger] r@[i]).id@].prev == Some(self.id@),
     { unimplemented!() }
     // parent = first task on the prev chain with a smaller node level (task.rs: Task::parent)
     #[verifier::external_body]
@@ -300,6 +309,7 @@ impl Task {
         requires h.has(self.id@)
         ensures
             tasks_ok(*h, r@), tids(r@).no_duplicates(), !tids(r@).contains(self.id@),
+            forall|i: int| 0 <= i < r@.len() ==> (#[trigger] r@[i]).id@ != self.id@,
             parent_tid(self.id@) is None ==> r@.len() == 0,
             parent_tid(self.id@) is Some ==> tids(r@).to_set() == children_of(*h, parent_tid(self.id@)->Some_0).remove(self.id@),
     { unimplemented!() }
@@ -328,8 +338,8 @@ pub open spec fn data_written(a: Heap, b: Heap, t: Tid) -> bool {
 
 // ---- process / context / scheduler primitives ------------------------------------------------
 pub uninterp spec fn new_tid(h: Heap) -> Tid;     // nanoid: ASSUMED fresh
-pub open spec fn fresh_task(node: Arc<Node>, prev: Option<Tid>) -> TaskAbs {
-    TaskAbs { state: TaskState::None, prev: prev, err: None, flags: Map::empty(), data_rev: 0, start_time: 0, end_time: 0, revived: 0, node: node }
+pub open spec fn fresh_task(node: Arc<Node>, prev: Option<Tid>, seq: nat) -> TaskAbs {
+    TaskAbs { state: TaskState::None, prev: prev, err: None, flags: Map::empty(), data_rev: 0, start_time: 0, end_time: 0, revived: 0, seq: seq, node: node }
 }
 impl Process {
     #[verifier::external_body]
@@ -365,7 +375,7 @@ impl Process {
             !old(h).has(r.id@), r.node == *node,
             // only the workflow node gets the root tid "$" (process.rs: create_task)
             r.id@ == ROOT_TID@ <==> node.s_kind() == NodeKind::Workflow,
-            *final(h) == (Heap { tasks: old(h).tasks.insert(r.id@, fresh_task(*node, match prev { Some(p) => Some(p.id@), None => None })), ..*old(h) }),
+            *final(h) == (Heap { tasks: old(h).tasks.insert(r.id@, fresh_task(*node, match prev { Some(p) => Some(p.id@), None => None }, old(h).next_seq)), next_seq: old(h).next_seq + 1, ..*old(h) }),
             fwd(*old(h), *final(h)), old(h).wf() && node.s_kind() != NodeKind::Workflow ==> final(h).wf(), final(h).cur == old(h).cur, wf_task(*final(h), *r),   // consequences
     { unimplemented!() }
 }
@@ -385,6 +395,10 @@ impl Runtime {
 pub open spec fn emit_summary(a: Heap, b: Heap, t: Tid) -> bool {
     &&& fwd(a, b) && b.cur == a.cur && b.wf()
     &&& b.task_events.len() > a.task_events.len() && b.task_events[a.task_events.len() as int] == (t, a.st(t))
+    // only an Error event can change existing tasks (its catch may revive the task and review upwards);
+    // every other event only lets hooks create new act tasks
+    &&& (!(a.st(t) is Error) ==> forall|x: Tid| #[trigger] a.has(x) ==> b.tasks[x] == a.tasks[x])
+    &&& (!(a.st(t) is Error) ==> b.proc_state == a.proc_state)
 }
 impl Scheduler {
     // ASSUMED here, PROVED for the lifted `on_task` closure (same spec function emit_summary)
@@ -415,8 +429,9 @@ pub proof fn lemma_stub_consequences(a: Heap, t: Tid, k: Seq<char>, v: bool, x: 
         fwd(a, Heap { tasks: a.tasks.insert(t, TaskAbs { flags: a.tasks[t].flags.insert(k, v), ..a.tasks[t] }), ..a }),
         a.wf() ==> (Heap { tasks: a.tasks.insert(t, TaskAbs { flags: a.tasks[t].flags.insert(k, v), ..a.tasks[t] }), ..a }).wf(),
         data_written(a, b2, t) ==> fwd(a, b2) && (a.wf() ==> b2.wf()) && b2.cur == a.cur,
-        !a.has(x) ==> fwd(a, Heap { tasks: a.tasks.insert(x, fresh_task(node, prev)), ..a }),
-        !a.has(x) && (x == ROOT_TID@ <==> node.s_kind() == NodeKind::Workflow) && node.s_kind() != NodeKind::Workflow && a.wf() ==> (Heap { tasks: a.tasks.insert(x, fresh_task(node, prev)), ..a }).wf(),
+        !a.has(x) ==> fwd(a, Heap { tasks: a.tasks.insert(x, fresh_task(node, prev, a.next_seq)), next_seq: a.next_seq + 1, ..a }),
+        !a.has(x) && (x == ROOT_TID@ <==> node.s_kind() == NodeKind::Workflow) && node.s_kind() != NodeKind::Workflow && a.wf() && (prev is Some ==> a.has(prev->Some_0))
+            ==> (Heap { tasks: a.tasks.insert(x, fresh_task(node, prev, a.next_seq)), next_seq: a.next_seq + 1, ..a }).wf(),
         fwd(a, Heap { queue: a.queue.push(t), ..a }) && (a.wf() ==> (Heap { queue: a.queue.push(t), ..a }).wf()),
         legal(a.proc_state, s) ==> fwd(a, Heap { proc_state: s, ..a }),
         legal(a.proc_state, TaskState::Error) ==> fwd(a, Heap { proc_state: TaskState::Error, proc_err: Some(e), ..a }),
@@ -428,43 +443,50 @@ pub proof fn lemma_stub_consequences(a: Heap, t: Tid, k: Seq<char>, v: bool, x: 
             ==> set_state_spec(Heap { tasks: a.tasks.insert(t, TaskAbs { err: Some(e), ..a.tasks[t] }), ..a }, t, TaskState::Error).wf()
                 && fwd(a, set_state_spec(Heap { tasks: a.tasks.insert(t, TaskAbs { err: Some(e), ..a.tasks[t] }), ..a }, t, TaskState::Error)),
 {
-    // wf only looks at cur, proc_state, and (state, err, node) of each task
+    // wf only looks at cur, proc_state, next_seq and (state, err, node, prev, seq) of each task
     let h0 = Heap { cur: t, ..a };
     if a.wf() {
-        assert forall|y: Tid| #[trigger] h0.has(y) implies (h0.tasks[y].err is Some ==> h0.st(y) is Error) && (h0.tasks[y].node.s_kind() == NodeKind::Workflow ==> y == ROOT_TID@) by { assert(a.has(y)); }
+        assert forall|y: Tid| #[trigger] h0.has(y) implies (h0.tasks[y].err is Some ==> h0.st(y) is Error) && (h0.tasks[y].node.s_kind() == NodeKind::Workflow ==> y == ROOT_TID@) && h0.tasks[y].seq < h0.next_seq && prev_in(h0, y) by { reveal(prev_in); assert(a.has(y)); assert(prev_in(a, y)); }
+        assert forall|y: Tid, p: Tid| #[trigger] h0.has(y) && #[trigger] h0.has(p) && h0.tasks[y].prev == Some(p) implies h0.tasks[p].seq < h0.tasks[y].seq by { reveal(prev_in); assert(a.has(y) && a.has(p)); }
     }
     let h1 = Heap { tasks: a.tasks.insert(t, TaskAbs { flags: a.tasks[t].flags.insert(k, v), ..a.tasks[t] }), ..a };
     assert forall|y: Tid| #[trigger] a.has(y) implies h1.has(y) && task_fwd(a.tasks[y], h1.tasks[y]) by {}
     if a.wf() {
-        assert forall|y: Tid| #[trigger] h1.has(y) implies (h1.tasks[y].err is Some ==> h1.st(y) is Error) && (h1.tasks[y].node.s_kind() == NodeKind::Workflow ==> y == ROOT_TID@) by { assert(a.has(y)); }
+        assert forall|y: Tid| #[trigger] h1.has(y) implies (h1.tasks[y].err is Some ==> h1.st(y) is Error) && (h1.tasks[y].node.s_kind() == NodeKind::Workflow ==> y == ROOT_TID@) && h1.tasks[y].seq < h1.next_seq && prev_in(h1, y) by { reveal(prev_in); assert(a.has(y)); assert(prev_in(a, y)); }
+        assert forall|y: Tid, p: Tid| #[trigger] h1.has(y) && #[trigger] h1.has(p) && h1.tasks[y].prev == Some(p) implies h1.tasks[p].seq < h1.tasks[y].seq by { reveal(prev_in); assert(a.has(y) && a.has(p)); }
     }
     if data_written(a, b2, t) {
         assert forall|y: Tid| #[trigger] a.has(y) implies b2.has(y) && task_fwd(a.tasks[y], b2.tasks[y]) by {}
         if a.wf() {
-            assert forall|y: Tid| #[trigger] b2.has(y) implies (b2.tasks[y].err is Some ==> b2.st(y) is Error) && (b2.tasks[y].node.s_kind() == NodeKind::Workflow ==> y == ROOT_TID@) by { assert(a.has(y)); }
+        assert forall|y: Tid| #[trigger] b2.has(y) implies (b2.tasks[y].err is Some ==> b2.st(y) is Error) && (b2.tasks[y].node.s_kind() == NodeKind::Workflow ==> y == ROOT_TID@) && b2.tasks[y].seq < b2.next_seq && prev_in(b2, y) by { reveal(prev_in); assert(a.has(y)); assert(prev_in(a, y)); }
+        assert forall|y: Tid, p: Tid| #[trigger] b2.has(y) && #[trigger] b2.has(p) && b2.tasks[y].prev == Some(p) implies b2.tasks[p].seq < b2.tasks[y].seq by { reveal(prev_in); assert(a.has(y) && a.has(p)); }
         }
     }
     if !a.has(x) {
-        let h2 = Heap { tasks: a.tasks.insert(x, fresh_task(node, prev)), ..a };
+        let h2 = Heap { tasks: a.tasks.insert(x, fresh_task(node, prev, a.next_seq)), next_seq: a.next_seq + 1, ..a };
         assert forall|y: Tid| #[trigger] a.has(y) implies h2.has(y) && task_fwd(a.tasks[y], h2.tasks[y]) by {}
-        if a.wf() && (x == ROOT_TID@ <==> node.s_kind() == NodeKind::Workflow) && node.s_kind() != NodeKind::Workflow {
-            assert forall|y: Tid| #[trigger] h2.has(y) implies (h2.tasks[y].err is Some ==> h2.st(y) is Error) && (h2.tasks[y].node.s_kind() == NodeKind::Workflow ==> y == ROOT_TID@) by { if y != x { assert(a.has(y)); } }
+        if a.wf() && (x == ROOT_TID@ <==> node.s_kind() == NodeKind::Workflow) && node.s_kind() != NodeKind::Workflow && (prev is Some ==> a.has(prev->Some_0)) {
+        assert forall|y: Tid| #[trigger] h2.has(y) implies (h2.tasks[y].err is Some ==> h2.st(y) is Error) && (h2.tasks[y].node.s_kind() == NodeKind::Workflow ==> y == ROOT_TID@) && h2.tasks[y].seq < h2.next_seq && prev_in(h2, y) by { reveal(prev_in); if y != x { assert(a.has(y)); assert(prev_in(a, y)); } }
+        assert forall|y: Tid, p: Tid| #[trigger] h2.has(y) && #[trigger] h2.has(p) && h2.tasks[y].prev == Some(p) implies h2.tasks[p].seq < h2.tasks[y].seq by { reveal(prev_in); if y != x { assert(a.has(y)); assert(prev_in(a, y)); assert(p != x); assert(a.has(p)); } else { assert(p != x); assert(a.has(p)); } }
         }
     }
     let h3 = Heap { queue: a.queue.push(t), ..a };
     if a.wf() {
-        assert forall|y: Tid| #[trigger] h3.has(y) implies (h3.tasks[y].err is Some ==> h3.st(y) is Error) && (h3.tasks[y].node.s_kind() == NodeKind::Workflow ==> y == ROOT_TID@) by { assert(a.has(y)); }
+        assert forall|y: Tid| #[trigger] h3.has(y) implies (h3.tasks[y].err is Some ==> h3.st(y) is Error) && (h3.tasks[y].node.s_kind() == NodeKind::Workflow ==> y == ROOT_TID@) && h3.tasks[y].seq < h3.next_seq && prev_in(h3, y) by { reveal(prev_in); assert(a.has(y)); assert(prev_in(a, y)); }
+        assert forall|y: Tid, p: Tid| #[trigger] h3.has(y) && #[trigger] h3.has(p) && h3.tasks[y].prev == Some(p) implies h3.tasks[p].seq < h3.tasks[y].seq by { reveal(prev_in); assert(a.has(y) && a.has(p)); }
     }
     if a.wf() && (legal(a.st(t), s) || catch_revive(a.tasks[t], s)) && !(t == ROOT_TID@ && a.st(t) is Error && s is Running) {
         let g = set_state_spec(a, t, s);
         assert forall|y: Tid| #[trigger] a.has(y) implies g.has(y) && task_fwd(a.tasks[y], g.tasks[y]) by {}
-        assert forall|y: Tid| #[trigger] g.has(y) implies (g.tasks[y].err is Some ==> g.st(y) is Error) && (g.tasks[y].node.s_kind() == NodeKind::Workflow ==> y == ROOT_TID@) by { assert(a.has(y)); }
+        assert forall|y: Tid| #[trigger] g.has(y) implies (g.tasks[y].err is Some ==> g.st(y) is Error) && (g.tasks[y].node.s_kind() == NodeKind::Workflow ==> y == ROOT_TID@) && g.tasks[y].seq < g.next_seq && prev_in(g, y) by { reveal(prev_in); assert(a.has(y)); assert(prev_in(a, y)); }
+        assert forall|y: Tid, p: Tid| #[trigger] g.has(y) && #[trigger] g.has(p) && g.tasks[y].prev == Some(p) implies g.tasks[p].seq < g.tasks[y].seq by { reveal(prev_in); assert(a.has(y) && a.has(p)); }
     }
     if a.wf() && legal(a.st(t), TaskState::Error) {
         let a1 = Heap { tasks: a.tasks.insert(t, TaskAbs { err: Some(e), ..a.tasks[t] }), ..a };
         let g = set_state_spec(a1, t, TaskState::Error);
         assert forall|y: Tid| #[trigger] a.has(y) implies g.has(y) && task_fwd(a.tasks[y], g.tasks[y]) by {}
-        assert forall|y: Tid| #[trigger] g.has(y) implies (g.tasks[y].err is Some ==> g.st(y) is Error) && (g.tasks[y].node.s_kind() == NodeKind::Workflow ==> y == ROOT_TID@) by { assert(a.has(y)); }
+        assert forall|y: Tid| #[trigger] g.has(y) implies (g.tasks[y].err is Some ==> g.st(y) is Error) && (g.tasks[y].node.s_kind() == NodeKind::Workflow ==> y == ROOT_TID@) && g.tasks[y].seq < g.next_seq && prev_in(g, y) by { reveal(prev_in); assert(a.has(y)); assert(prev_in(a, y)); }
+        assert forall|y: Tid, p: Tid| #[trigger] g.has(y) && #[trigger] g.has(p) && g.tasks[y].prev == Some(p) implies g.tasks[p].seq < g.tasks[y].seq by { reveal(prev_in); assert(a.has(y) && a.has(p)); }
     }
 }
 pub proof fn lemma_data_only_fwd(a: Heap, b: Heap)
@@ -472,7 +494,14 @@ pub proof fn lemma_data_only_fwd(a: Heap, b: Heap)
     ensures fwd(a, b), a.wf() ==> b.wf(), a.cur == b.cur
 {
     assert forall|t: Tid| #[trigger] a.has(t) implies b.has(t) && task_fwd(a.tasks[t], b.tasks[t]) by {}
+    if a.wf() {
+        assert forall|y: Tid| #[trigger] b.has(y) implies (b.tasks[y].err is Some ==> b.st(y) is Error) && (b.tasks[y].node.s_kind() == NodeKind::Workflow ==> y == ROOT_TID@) && b.tasks[y].seq < b.next_seq && prev_in(b, y) by { reveal(prev_in); assert(a.has(y)); assert(prev_in(a, y)); }
+        assert forall|y: Tid, p: Tid| #[trigger] b.has(y) && #[trigger] b.has(p) && b.tasks[y].prev == Some(p) implies b.tasks[p].seq < b.tasks[y].seq by { assert(a.has(y) && a.has(p)); }
+    }
 }
+// TRUSTED: Vec::extend_from_slice appends (R7: `v.extend_from_slice(&e)` -> `vec_extend(&mut v, e)`)
+#[verifier::external_body]
+pub fn vec_extend<T: Clone>(v: &mut Vec<T>, e: Vec<T>) ensures final(v)@ == old(v)@ + e@ { unimplemented!() }
 impl Task {
     // task.rs: update_data writes the variables into this task and into the ancestor that already holds the key (data only)
     #[verifier::external_body]
